@@ -12,6 +12,7 @@ pub mod c06;
 pub mod c07;
 pub mod c08;
 pub mod c09;
+pub mod c10;
 pub mod c14;
 pub mod c16;
 pub mod c17;
@@ -28,6 +29,7 @@ pub fn run(id: &str, tier: Tier) -> Option<CheckResult> {
         "C07" => Some(c07::run(tier)),
         "C08" => Some(c08::run(tier)),
         "C09" => Some(c09::run(tier)),
+        "C10" => Some(c10::run(tier)),
         "C14" => Some(c14::run(tier)),
         "C16" => Some(c16::run(tier)),
         "C17" => Some(c17::run(tier)),
@@ -47,6 +49,7 @@ pub fn replay(id: &str, case: &Value) -> Option<Vec<Violation>> {
         "C07" => Some(c07::replay(case)),
         "C08" => Some(c08::replay(case)),
         "C09" => Some(c09::replay(case)),
+        "C10" => Some(c10::replay(case)),
         "C14" => Some(c14::replay(case)),
         "C16" => Some(c16::replay(case)),
         "C17" => Some(c17::replay(case)),
